@@ -110,6 +110,13 @@ pub fn catch<T>(f: impl FnOnce() -> T) -> Result<T, Violation> {
                 location: "?".into(),
                 message: "?".into(),
             });
+            // harness-originated budget trips carry a marker and are the oracle they implement
+            if let Some(rest) = p.message.strip_prefix(BUDGET_MARKER) {
+                let mut it = rest.splitn(2, "|");
+                let oracle = it.next().unwrap_or("budget").to_string();
+                let detail = it.next().unwrap_or("").to_string();
+                return Err(Violation::new(oracle, detail));
+            }
             let msg: String = p.message.chars().take(160).collect();
             // digits in messages are input-dependent: normalise them away for the signature
             let norm: String = msg
@@ -131,6 +138,14 @@ struct CtxSummary {
     log: Vec<String>,
     now: u64,
     events_fired: u64,
+}
+
+pub const BUDGET_MARKER: &str = "SIMKIT-BUDGET|";
+
+/// Abort the current run with an oracle failure from inside code that cannot return one
+/// (a seam implementation deep inside the code under test).
+pub fn trip(oracle: &str, detail: &str) -> ! {
+    panic!("{}{}|{}", BUDGET_MARKER, oracle, detail)
 }
 
 pub const STACK_BYTES: usize = 64 << 20;
@@ -167,7 +182,7 @@ pub fn run_tape(tape: Tape, verbose: bool, engine: fn() -> Outcome) -> RunReport
             tape: c.tape.rec.clone(),
             probes: c.probes.clone(),
             log: c.log.clone(),
-            now: c.now,
+            now: c.now.saturating_add(c.sub_ns),
             events_fired: c.events_fired,
         };
         drop(c);
@@ -200,5 +215,56 @@ pub fn run_tape(tape: Tape, verbose: bool, engine: fn() -> Outcome) -> RunReport
         nontrivial,
         key,
         info,
+    }
+}
+
+/// Result of a sub-execution (one of several executions inside one run, each on its own fresh
+/// thread with its own context and hash seed).
+pub struct SubReport<T> {
+    pub value: Result<T, Violation>,
+    pub digest: u64,
+    pub probes: BTreeMap<&'static str, u64>,
+    pub log: Vec<String>,
+    pub sim_ns: u64,
+    pub events: u64,
+    pub tape: Vec<u32>,
+}
+
+/// Execute `f` on a fresh thread under its own tape.  The first tape cell is the hash seed.
+pub fn run_sub<T: Send + 'static>(
+    tape: Tape,
+    verbose: bool,
+    f: impl FnOnce() -> T + Send + 'static,
+) -> SubReport<T> {
+    install_panic_hook();
+    let mut tape = tape;
+    let hash_seed = tape.draw(u32::MAX) as u64;
+    let joined = on_fresh_thread(hash_seed, move || {
+        ctx::install(RunCtx::new(tape, verbose));
+        let res = catch(f);
+        let c = ctx::uninstall().expect("ctx vanished");
+        let summary = CtxSummary {
+            digest: c.digest,
+            tape: c.tape.rec.clone(),
+            probes: c.probes.clone(),
+            log: c.log.clone(),
+            now: c.now,
+            events_fired: c.events_fired,
+        };
+        drop(c);
+        (res, summary)
+    });
+    let (res, c) = match joined {
+        Ok(x) => x,
+        Err(_) => panic!("simkit: sub-execution thread died outside catch_unwind"),
+    };
+    SubReport {
+        value: res,
+        digest: c.digest,
+        probes: c.probes,
+        log: c.log,
+        sim_ns: c.now,
+        events: c.events_fired,
+        tape: c.tape,
     }
 }
